@@ -89,6 +89,7 @@ type Engine struct {
 	Recursive   []string
 	fninfo      map[*ssa.Function]*fnInfo
 	MaxStates   int
+	PhiFilter   func(ph *ssa.Phi) bool // non-boolean phis whose path-taken source is tracked (see Exec.Resolve)
 }
 
 func NewEngine(p *Prog, h Hooks) *Engine {
@@ -312,6 +313,27 @@ func (e *Engine) pruneFacts(fn *ssa.Function, b *ssa.BasicBlock, s *pstate) {
 	}
 }
 
+// TrackPhi: should the engine remember which incoming value a (non-boolean) phi received on the path taken?
+func (e *Engine) TrackPhi(ph *ssa.Phi) bool {
+	return e.PhiFilter != nil && e.PhiFilter(ph)
+}
+
+// Resolve follows phi aliases of the current state: the value a phi actually received on the path taken.
+func (x *Exec) Resolve(v ssa.Value) ssa.Value {
+	for i := 0; i < 8; i++ {
+		ph, ok := v.(*ssa.Phi)
+		if !ok || x.cur == nil || x.cur.alias == nil {
+			return v
+		}
+		src, ok := x.cur.alias[valKey(ph)]
+		if !ok {
+			return v
+		}
+		v = src
+	}
+	return v
+}
+
 // Run analyses fn as an entry point from abstract state a.
 func (e *Engine) Run(fn *ssa.Function, a AState, ctx string) []Exit {
 	return e.summary(nil, nil, fn, a, ctx)
@@ -505,8 +527,8 @@ func (x *Exec) enter(from, to *ssa.BasicBlock, s *pstate, work *[]workItem, seen
 		x.cur = s
 		t, known := x.truthOf(ed, s)
 		ups = append(ups, upd{valKey(ph), t, known})
-		if isBool(ph.Type()) {
-			if _, isConst := ed.(*ssa.Const); !isConst && !known {
+		if isBool(ph.Type()) || x.E.TrackPhi(ph) {
+			if _, isConst := ed.(*ssa.Const); !isConst && (!known || !isBool(ph.Type())) {
 				if s.alias == nil {
 					s.alias = map[string]ssa.Value{}
 				}
